@@ -71,6 +71,9 @@ def sentinel_rule(prog, rule, funcs, fetchers, exceptions=None):
                             trees = [x.get("rhs", {}).get("tree")]
                             if x.get("op") in ("+=", "-=", "*=") and uses(x["rhs"]["tree"]):
                                 bad = (v, x)
+                            # the error sentinel reported as a byte count: `rv.consumed = ret` while ret == -1
+                            if v < 0 and x.get("op") == "=" and x.get("field") == "consumed" and "rhs" in x and uses(x["rhs"]["tree"]):
+                                bad = (v, x)
                         elif x["k"] == "decl":
                             trees = [x.get("init", {}).get("tree")]
                         elif x["k"] == "call" and x.get("callee") not in NOISE:
